@@ -56,6 +56,17 @@ fn binary_cases() -> &'static Vec<String> {
         for n in 0..=25 {
             v.push(format!("{}!", n));
         }
+        // the same values spelled with redundant leading zeros (digit counters, fixed buffers): the value decides, not the text
+        for z in [1usize, 2, 17, 18, 19, 20, 21, 30, 63, 64, 100, 200] {
+            for d in ["0", "7", "42", "9223372036854775807", "9223372036854775808", "3037000500"] {
+                let lit = format!("{}{}", "0".repeat(z), d);
+                v.push(lit.clone());
+                v.push(format!("{}*2-@", lit));
+                v.push(format!("@+{}", lit));
+                v.push(format!("{}*{}", lit, lit));
+                v.push(format!("2^{}", format!("{}{}", "0".repeat(z), "5")));
+            }
+        }
         v
     })
 }
